@@ -20,7 +20,9 @@ vars == <<l, cands, skip, seen>>
 
 Init == l = 1 /\ cands = {EmptyState} /\ skip = FALSE /\ seen = {}
 
-OutsOf(s, e) == Exec(s, e.now, e.argv, e.reply)
+\* a command observed to straddle a second boundary (now2 # now, real-clock drivers) may be attributed to either second
+HasNow2(e) == "now2" \in DOMAIN e /\ e.now2 # e.now
+OutsOf(s, e) == Exec(s, e.now, e.argv, e.reply) \o (IF HasNow2(e) THEN Exec(s, e.now2, e.argv, e.reply) ELSE <<>>)
 \* matching outcomes of candidate s, as [s |-> next state, b |-> branch label]
 Good(s, e) == LET o == OutsOf(s, e) IN {[s |-> o[i].s, b |-> o[i].b] : i \in {j \in 1..Len(o) : ReplyMatch(o[j].r, e.reply)}}
 
